@@ -27,8 +27,8 @@ RULE = ("per named curve: encodings (raw/uncompressed/compressed/hybrid) of poin
         "the DER wrapper parser")
 LEANCHECK = ["Props.C08"]
 ASSUMPTIONS = [
-    "p prime, n prime for the curves of the table, and #E(F_p) = n for the 16 cofactor-1 curves (SEC 2 / FIPS / RFC 5639 "
-    "facts): hypotheses of from_string_accepts_iff_subgroup_cofactor_one (full statement, in Mathlib's point group); the "
+    "#E(F_p) = n for the 16 cofactor-1 curves (a SEC 2 / FIPS / RFC 5639 fact; p and n of every row of the table are "
+    "proved prime from kernel-checked certificates, Props/NamedPrimes + UncondC08): hypothesis of from_string_accepts_iff_subgroup_cofactor_one (full statement, in Mathlib's point group); the "
     "order of every base point is checked by the kernel (Proofs/NamedCurves)",
     "the generic theorems take the subgroup test and the modular square root as parameters (Ext.subgroupOk, "
     "Ext.sqrtModP); on the composed model KeysWire.modelExt they are the models of C06/C07 and C15, whose contracts "
